@@ -1185,7 +1185,7 @@ func (g *gen) genTx(bi int) {
 		}
 		s.ReplayBlock, s.ReplayTx = ref[0], ref[1]
 		if r.Chance(0.45) {
-			s.Mut = []string{"fee", "memo", "entropy", "msg", "sflip", "sflip", "memosp", "membyte", "strbyte"}[r.Intn(9)]
+			s.Mut = []string{"fee", "memo", "entropy", "msg", "sflip", "sflip", "memosp", "membyte", "strbyte", "feecoin"}[r.Intn(10)]
 		}
 		g.addTx(bi, s)
 		return
@@ -1241,7 +1241,7 @@ func (g *gen) genTx(bi int) {
 		case 1:
 			s.ChainID = "otherchain"
 		case 2:
-			s.Mut = []string{"fee", "memo", "entropy", "msg", "sigbit", "sigtrunc", "pubkey", "sflip", "nomsg", "nopubstake", "msigshort", "hashsig", "memosp", "membyte", "strbyte"}[r.Intn(15)]
+			s.Mut = []string{"fee", "memo", "entropy", "msg", "sigbit", "sigtrunc", "pubkey", "sflip", "nomsg", "nopubstake", "msigshort", "hashsig", "memosp", "membyte", "strbyte", "feecoin"}[r.Intn(16)]
 			if isMultiType(g.kr.Get(s.SignBy).Type) && r.Chance(0.6) {
 				s.Mut = []string{"msigshort", "onecosigner"}[r.Intn(2)]
 			}
